@@ -766,6 +766,14 @@ class TrueTypeFont:
             pass
 
     def create_unicode_map(self) -> FileUnicodeMap:
+        try:
+            return self._create_unicode_map()
+        except struct.error:
+            # The cmap table is cut short or its offsets point outside the
+            # font program.
+            raise TrueTypeFont.CMapNotFound
+
+    def _create_unicode_map(self) -> FileUnicodeMap:
         if b"cmap" not in self.tables:
             raise TrueTypeFont.CMapNotFound
         (base_offset, length) = self.tables[b"cmap"]
